@@ -57,7 +57,7 @@ def guess_for(draw, d, N, kind):
 
 @st.composite
 def strategy_(draw):
-    sp = draw(gen.base_ocp(horizons=("num", "free"), table_kw={"shapes": [(1, 1), (1, 1), (2, 1), (3, 1)], "max_params": 1}))
+    sp = draw(gen.base_ocp(horizons=("num", "free"), table_kw={"shapes": [(1, 1), (1, 1), (2, 1), (3, 1)], "max_params": 1}, alg_odds=(1, 2)))
     m = sp["method"]
     N = m["N"]
     if draw(st.integers(0, 2)) == 0:
@@ -90,6 +90,10 @@ def strategy_(draw):
         else:
             g = draw(guess_for(d, N, kind))
         ops.append({"sym": d["name"], "guess": g, "phase": draw(st.sampled_from(["before", "before", "after"]))})
+    if sp.get("algebraics") and draw(st.booleans()):
+        # a time-varying guess for the algebraic variable: every collocation point of every integrator step has its own time
+        ops.insert(draw(st.integers(0, len(ops))), {"sym": sp["algebraics"][0]["name"], "phase": draw(st.sampled_from(["before", "after"])),
+                                                    "guess": {"form": "expr", "value": [["+", ["*", E.C(draw(gen.small())), ["sin", ["t"]]], ["*", E.C(draw(gen.small())), ["t"]]]]}})
     return {"spec": sp, "ops": ops, "rng": draw(st.integers(0, 2**31 - 1))}
 
 
